@@ -31,7 +31,7 @@ ASSUMPTIONS = [
     "tolerance 5e-6*max(1,|p| of operands, intermediates and result): the property's 5e-6 absolute, scaled as DESIGN 1.3 "
     "prescribes because the documented NearZero cut-off (|w|<1e-6 -> identity) moves a point at distance |p| by 1e-6*|p|",
     "rpy=True means R = Rx(a) Ry(b) Rz(c) (see module docstring)",
-    "results of localToGlobal/globalToLocal (they go through a logarithm) whose rotation lies within 2e-5 of a half turn "
+    "results of localToGlobal/globalToLocal (they go through a logarithm) whose rotation lies within 1e-4 of a half turn "
     "are excluded and counted (open known finding C01-near-pi-log); '@', inv and the 4x4/quaternion constructors do not "
     "go through a logarithm on the way to gTM() and are enforced everywhere",
     "only C-contiguous float64 arrays / Python floats are handed to the library",
@@ -39,7 +39,7 @@ ASSUMPTIONS = [
 
 PI = math.pi
 TOL = 5e-6
-NEAR_PI = 2e-5
+NEAR_PI = 1e-4          # derived matrices are orthonormal to ~1e-14 only and the logarithm amplifies that by 1/(pi-angle)^2: 1.4e-5 measured at pi-2.2e-5 (sweep #13)
 
 _lib = {}
 
@@ -266,7 +266,7 @@ def c_frames(case, ctx):
     ctx.label(_angle_label(float(np.linalg.norm(r[3:]))))
     ctx.label(_p_label(r[:3]))
     if _near_pi(G_[:3, :3]) or _near_pi(L_[:3, :3]):
-        ctx.skip("result within 2e-5 of a half turn (C01-near-pi-log)")
+        ctx.skip("result within 1e-4 of a half turn (C01-near-pi-log)")
     ctx.nontrivial(_nonparallel(r[3:], x[3:]) and np.linalg.norm(r[:3]) > 0 and np.linalg.norm(x[:3]) > 0)
     tr, tx = _build(r, case["fr"]), _build(x, case["fx"])
     s = _scale(Rm, X, G_, L_)
